@@ -8,6 +8,23 @@ PY = '/venv/bin/python'
 
 # property -> (category, level text, level note, technique, design ref)
 CLAIMED = {
+    'C18': ('other',
+            'Static rules on RawFileSystem: the containment predicate of _resolve_path is classified with the string-form domain (a startswith() against '
+            'the bare abspath root is rejected; root + separator, commonpath, is_relative_to are accepted), the candidate is normalised with '
+            'abspath(join(root, path)) before the test and that value is what is returned, RootEscapeError is raised exactly when constrain_path (default '
+            'True); every OS sink in the class (open, os.walk, os.stat, os.path.isfile...) receives a value returned by _resolve_path, File arguments are '
+            'unwrapped and re-resolved; FileSystemChain reaches members only through their public methods.',
+            'Trusted: CPython ast, engine/forms.py. Assumes lexical normalisation by os.path.abspath; symlinks inside the root are not claimed.',
+            'static: taint-style sink sanitisation check + string-form classification of the containment predicate',
+            'DESIGN.md section 3, C18'),
+    'C19': ('other',
+            'Static rules on the virtual, zip and VPK backends and the chain: string-form dataflow shows index keys, every lookup key and both operands of '
+            'the walk_folder test are casefolded with forward slashes; the folder operand is made separator-terminated (or empty) before the prefix test and '
+            "the normaliser's '.' for the empty folder is mapped back; yielded File paths are stored names the lookup accepts; the chain returns the first hit "
+            'in list order, priority inserts at the front, prefixes are joined and stripped, the de-duplicated walk compares casefolded paths.',
+            'Trusted: CPython ast, engine/forms.py (flow-insensitive with block-local kills). Byte equality across backends and OS case behaviour are not claimed.',
+            'static: string-form dataflow (normal-form agreement of index, lookup and folder-test operands) + shape rules for the chain',
+            'DESIGN.md section 3, C19'),
     'C13': ('other',
             'Static rules on vpk.py: CFG dominance of the writable-mode guard over every mutation of the file table / storage fields / archive files; '
             'wire agreement of the directory reader and writer (header and entry formats, entry slot -> FileInfo field linkage through the constructor, '
